@@ -610,6 +610,10 @@ func (re *Regexp) GroupNumberFromName(name string) int {
 
 		result *= 10
 		result += int(ch - '0')
+		if result >= re.capsize {
+			// too large to be a group number; stop before the accumulator can overflow
+			return -1
+		}
 	}
 
 	// return int if it's in range
